@@ -75,6 +75,17 @@ def fl(v):
     return [float(x) for x in v]
 
 
+def sclose(u, v, scale, tol=TOL):
+    """|u_k - v_k| <= tol * scale_k, scale_k = size of the summands the value is made of (sum |c| |Q|).  An absolute floor such as
+    max(1, |v|) would accept ANY value for data of size 1e-12 (tiny boxes); with scale 0 the values must be equal."""
+    if len(u) != len(v):
+        return False
+    for x, y, sc in zip(u, v, scale):
+        if abs(float(x) - float(y)) > tol * float(sc) and x != y:
+            return False
+    return True
+
+
 def int_coeff(c):
     ci = int(round(float(c)))
     if abs(float(c) - ci) > 1e-12:
@@ -83,8 +94,44 @@ def int_coeff(c):
 
 
 # ----------------------------------------------------------------------------------------------------------- integrands
+_EXACT_MEMO = {}
+
+
 def exact_eval(spec, coords):
-    """value of the integrand `spec` at a point, as a list of Fractions (exact in the coordinates' float values)"""
+    """value of the integrand `spec` at a point, as a list of Fractions (exact in the coordinates' float values); memoised per
+    (spec object, point) -- the same points are summed at every stop and by every fresh run"""
+    key = (id(spec), tuple(float(c) for c in coords))
+    hit = _EXACT_MEMO.get(key)
+    if hit is not None and hit[0] is spec:
+        return hit[1]
+    if len(_EXACT_MEMO) > 400000:
+        _EXACT_MEMO.clear()
+    val = _exact_eval(spec, coords)
+    _EXACT_MEMO[key] = (spec, val)
+    return val
+
+
+def float_eval(spec, coords):
+    """what the integrand object handed to the implementation returns: plain double arithmetic for the polynomial kinds (exact on
+    the dyadic streams as long as 53 bits suffice), the correctly rounded exact value otherwise"""
+    if spec["kind"] in ("poly", "rel"):
+        xs = [float(c) for c in coords]
+        if spec["kind"] == "rel":
+            xs = [(x - a) / (b - a) for x, a, b in zip(xs, spec["a"], spec["b"])]
+        out = []
+        for terms in spec["terms"]:
+            t_sum = 0.0
+            for (num, den), exps in terms:
+                t = num / den
+                for x, e in zip(xs, exps):
+                    t *= x ** e
+                t_sum += t
+            out.append(t_sum)
+        return out
+    return [float(x) for x in exact_eval(spec, coords)]
+
+
+def _exact_eval(spec, coords):
     xs = [fr(c) for c in coords]
     out = []
     if spec["kind"] == "table":
@@ -144,7 +191,7 @@ def make_function(spec):
             return self.spec["outl"]
 
         def eval(self, coordinates):
-            v = [float(x) for x in exact_eval(self.spec, coordinates)]
+            v = float_eval(self.spec, coordinates)
             return v if len(v) > 1 else v[0]
 
     return SpecF(spec)
@@ -178,7 +225,16 @@ def gen_fspec(r, dim, allow_table=True, nondyadic=False):
     return {"kind": "poly", "outl": outl, "terms": terms}
 
 
-def gen_box(r, dim):
+def gen_box(r, dim, extreme=False):
+    if extreme:
+        # far from the origin (|a| / (b - a) up to 2^13, both signs) or tiny (width 2^-20 .. 2^-12), non-cubic; dyadic
+        if r.random() < 0.5:
+            off = r.choice([-1, 1]) * float(2 ** r.choice([10, 12, 13]))
+            a = [off + d for d in range(dim)]
+            return a, [x + float(r.choice([1, 2, 4])) for x in a]
+        w = 2.0 ** -r.choice([12, 16, 20])
+        a = [float(r.choice([0, 1, -3])) for _ in range(dim)]
+        return a, [x + w * (d + 1) for d, x in enumerate(a)]
     k = r.randrange(4)
     if k == 0:
         return [0.0] * dim, [1.0] * dim
@@ -189,7 +245,13 @@ def gen_box(r, dim):
     return [0.5] * dim, [1.5 + d for d in range(dim)]
 
 
-# ----------------------------------------------------------------------------------------------------------- grids
+def flag(gs, key="boundary"):
+    """the boundary flag in the representation the case asks for (bool / numpy.bool_ / 0-1)"""
+    v = bool(gs[key])
+    rep = gs.get("flagrep", "bool")
+    return np.bool_(v) if rep == "np" else (int(v) if rep == "int" else v)
+
+
 def grid_class(gs):
     import sparseSpACE.Grid as G
     return {"Trapezoidal": G.TrapezoidalGrid, "ClenshawCurtis": G.ClenshawCurtisGrid, "GaussLegendre": G.GaussLegendreGrid,
@@ -202,11 +264,11 @@ def grid_kwargs(gs):
     n = gs["name"]
     old = {"integrator": "old"} if gs.get("integrator") == "old" else {}     # the point-wise IntegratorArbitraryGrid
     if n == "Trapezoidal":
-        return dict({"boundary": gs["boundary"], "modified_basis": gs.get("modified", False)}, **old)
+        return dict({"boundary": flag(gs), "modified_basis": gs.get("modified", False)}, **old)
     if n == "GlobalTrapezoidal":
-        return {"boundary": gs["boundary"], "modified_basis": gs.get("modified", False)}
+        return {"boundary": flag(gs), "modified_basis": gs.get("modified", False)}
     if n == "ClenshawCurtis":
-        return dict({"boundary": gs["boundary"]}, **old)
+        return dict({"boundary": flag(gs)}, **old)
     if n == "Leja":
         return dict({"boundary": gs["boundary"]}, **old)
     if n == "GaussLegendre":
@@ -242,6 +304,8 @@ def make_grid(gs, a, b, cls=None):
     points everywhere and the flags are then installed through the public Grid.set_boundaries()."""
     a = np.array(a, dtype=float)
     b = np.array(b, dtype=float)
+    if cls is None and "flagrep" in gs:
+        gs = {k: v for k, v in gs.items() if k != "flagrep"}     # independent construction: plain bool flags
     if gs["name"] == "Mixed":
         import sparseSpACE.Grid as G
         kinds = {"Trapezoidal": G.TrapezoidalGrid1D, "ClenshawCurtis": G.ClenshawCurtisGrid1D}
@@ -302,6 +366,14 @@ def combine(coeffs, values, outl):
     return tot
 
 
+def combine_scale(coeffs, values, outl):
+    tot = [Fraction(0)] * outl
+    for c, v in zip(coeffs, values):
+        for k in range(outl):
+            tot[k] += abs(c * v[k])
+    return tot
+
+
 # ----------------------------------------------------------------------------------------------------------- model side
 def comps_str(comps, k):
     """comps = [(coeff, {areaid: vector})] -> protocol string for output component k"""
@@ -340,9 +412,10 @@ def parse_es_state(s):
     return Fraction(t[1]), Fraction(t[3]), areas, int(t[7])
 
 
-def es_state_close(impl, model_line, k, exact):
-    """compare the implementation's state (vectors of Fractions) with a model state line for output component k"""
-    if exact and es_state_str(*impl, k) == model_line:
+def es_state_close(impl, model_line, k, exact, mag=None):
+    """compare the implementation's state (vectors of Fractions) with a model state line for output component k; tolerances are
+    relative to the largest number of the state (data of size 1e-12 must not pass through an absolute floor)"""
+    if es_state_str(*impl, k) == model_line:
         return True
     tol = 1e-12 if exact else TOL      # dyadic stream: equal unless a double rounded (large sums); never looser than 1e-12
     try:
@@ -350,10 +423,18 @@ def es_state_close(impl, model_line, k, exact):
     except Exception:
         return False
     integral, cont, areas, start_new, pops = impl
-    if not (close(integral[k], mi, tol) and close(cont[k], mc, tol) and ms == start_new and len(areas) == len(mareas)):
+    ref = max([abs(integral[k]), abs(cont[k]), abs(mi), abs(mc)] + [abs(v[k]) for _, v in areas if v is not None] +
+              [abs(w) for _, w in mareas if w is not None])
+    if mag is not None:                # the largest number the run has produced so far (a result that cancels to a rounding
+        mag[0] = max(mag[0], ref)      # residue after all evaluated areas were removed is compared on the run's scale)
+        ref = mag[0]
+
+    def near(x, y):
+        return x == y or abs(x - y) <= tol * ref
+    if not (near(integral[k], mi) and near(cont[k], mc) and ms == start_new and len(areas) == len(mareas)):
         return False
     for (i, v), (j, w) in zip(areas, mareas):
-        if i != j or (v is None) != (w is None) or (v is not None and not close(v[k], w, tol)):
+        if i != j or (v is None) != (w is None) or (v is not None and not near(v[k], w)):
             return False
     return True
 
@@ -609,6 +690,10 @@ def run_micro(ctx, drv, case, variant):
             trace.append((lines, "raise"))
             ctx.count("micro_raise_" + type(e).__name__)
             break
+        except Exception:
+            # k: any other exception of the implementation on a history of valid calls is a violation with this very case as replay
+            ctx.violation("exception", {"strategy": "micro", "where": kind}, case, {"trace": traceback.format_exc()[-1500:]})
+            return False
     for k in range(outl):
         for (lines, impl) in trace:
             out = None
@@ -658,8 +743,18 @@ def case_standard(ctx, drv, case):
     dim, a, b, gs, fspec = case["dim"], case["a"], case["b"], case["grid"], case["f"]
     outl = fspec["outl"]
     f = make_function(fspec)
-    op = Integration(f, grid=make_grid(gs, a, b), dim=dim)
-    sc = StandardCombi(np.array(a), np.array(b), operation=op, print_output=False)
+    if case.get("no_cache"):
+        f.deactivate_caching()                      # rarely used toggle: the result must not depend on the function cache
+    op = Integration(f, grid=make_grid(gs, a, b, cls=grid_class(gs)), dim=dim)
+    an, bn = np.array(a, dtype=float), np.array(b, dtype=float)
+    sc = StandardCombi(an, bn, operation=op, print_output=False)
+
+    def expected_scheme(lmin, lmax):
+        # the standard scheme of the REQUEST, from a fresh CombiScheme object (not what the object under test remembers)
+        from sparseSpACE.combiScheme import CombiScheme
+        with quiet():
+            return sorted((tuple(int(x) for x in g.levelvector), int_coeff(g.coefficient))
+                          for g in CombiScheme(dim).getCombiScheme(lmin, lmax, do_print=False))
     tags = {"strategy": "standard", "grid": gs["name"], "resumed": False}
     try:
         with quiet():
@@ -671,31 +766,77 @@ def case_standard(ctx, drv, case):
         return False
     ok = True
     sch = scheme_of(sc)
+    if sorted(sch) != expected_scheme(case["lmin"], case["lmax"]):
+        ok = False
+        ctx.violation("scheme-of-request", tags, case, {"object": str(sorted(sch))[:300], "fresh": str(expected_scheme(case["lmin"], case["lmax"]))[:300]})
     rules = [local_component(gs, a, b, lv, a, b, fspec) for lv, _ in sch]
     indep = combine([c for _, c in sch], [r[2] for r in rules], outl)
-    if not vclose(reported, indep):
+    scale = combine_scale([c for _, c in sch], [r[2] for r in rules], outl)
+    if not sclose(reported, indep, scale):
         ok = False
         ctx.violation("reported-vs-independent", tags, case, {"reported": fl(reported), "independent": fl(indep)})
     # (d) public points and combined weights
     pw = rule_sum([tuple(float(c) for c in p) for p in pts], [float(w) for w in ws], fspec)
-    if not vclose(reported, pw):
+    if not sclose(reported, pw, scale):
         ok = False
         ctx.violation("points-weights", tags, case, {"reported": fl(reported), "sum_w_f": fl(pw), "n": len(ws)})
-    # a second perform_operation on the same object starts from zero again
+    # object history / aliasing: the query is repeatable, does not alias internal state (the caller overwrites what it got), does not
+    # touch the stored result, and the caller's box arrays are left alone
+    pts0, ws0 = np.array(pts, dtype=float), np.array(ws, dtype=float)
     try:
         with quiet():
-            _, _, res2 = sc.perform_operation(case["lmin"], case["lmax"])
-        if not vclose(vec(np.array(res2), outl), indep):
+            pts_b, ws_b = sc.get_points_and_weights()
+            same1 = np.array_equal(np.asarray(pts_b, dtype=float), pts0) and np.array_equal(np.asarray(ws_b, dtype=float), ws0)
+            for arr in (pts, ws, pts_b, ws_b):
+                if isinstance(arr, np.ndarray) and arr.size:
+                    arr[...] = 0
+            pts_c, ws_c = sc.get_points_and_weights()
+            same2 = np.array_equal(np.asarray(pts_c, dtype=float), pts0) and np.array_equal(np.asarray(ws_c, dtype=float), ws0)
+            after = vec(np.array(op.get_result()), outl)
+        if not (same1 and same2):
             ok = False
-            ctx.violation("reported-vs-independent", dict(tags, resumed=True), case,
-                          {"reported_second_call": fl(vec(np.array(res2), outl)), "independent": fl(indep)})
+            ctx.violation("points-weights", dict(tags, repeated_query=True), case,
+                          {"second_query_equal": bool(same1), "query_after_caller_overwrote_arrays_equal": bool(same2)})
+        if after != reported or not (np.array_equal(an, np.array(a, dtype=float)) and np.array_equal(bn, np.array(b, dtype=float))):
+            ok = False
+            ctx.violation("query-modifies-state", tags, case, {"reported": fl(reported), "get_result_after_queries": fl(after),
+                                                                "a": [float(x) for x in an], "b": [float(x) for x in bn]})
+    except Exception:
+        ctx.violation("exception", dict(tags, where="get_points_and_weights-repeat"), case, {"trace": traceback.format_exc()[-1500:]})
+        ok = False
+    # ONE object, several requests: another level on the same object, then the first request again (bit-identical)
+    try:
+        lmax2 = case["lmax"] - 1 if case["lmax"] > case["lmin"] else case["lmax"] + 1
+        with quiet():
+            _, _, res2 = sc.perform_operation(case["lmin"], lmax2)
+        res2 = vec(np.array(res2), outl)
+        sch2 = expected_scheme(case["lmin"], lmax2)
+        if sorted(scheme_of(sc)) != sch2:
+            ok = False
+            ctx.violation("scheme-of-request", dict(tags, resumed=True), dict(case, second_lmax=lmax2),
+                          {"object": str(sorted(scheme_of(sc)))[:300], "fresh": str(sch2)[:300]})
+        known = {lv: r for (lv, _), r in zip(sch, rules)}
+        rules2 = [known[lv] if lv in known else local_component(gs, a, b, lv, a, b, fspec) for lv, _ in sch2]
+        indep2 = combine([c for _, c in sch2], [r[2] for r in rules2], outl)
+        scale2 = combine_scale([c for _, c in sch2], [r[2] for r in rules2], outl)
+        if not sclose(res2, indep2, scale2):
+            ok = False
+            ctx.violation("reported-vs-independent", dict(tags, resumed=True), dict(case, second_lmax=lmax2),
+                          {"reported_second_request": fl(res2), "independent": fl(indep2)})
+        with quiet():
+            _, _, res3 = sc.perform_operation(case["lmin"], case["lmax"])
+        res3 = vec(np.array(res3), outl)
+        if res3 != reported:
+            ok = False
+            ctx.violation("reported-vs-independent", dict(tags, resumed=True), dict(case, second_lmax=lmax2),
+                          {"reported_first": fl(reported), "reported_again_after_other_request": fl(res3), "independent": fl(indep)})
     except Exception:
         ctx.violation("exception", dict(tags, where="perform_operation-2"), case, {"trace": traceback.format_exc()[-1500:]})
         ok = False
     # model: standard run on the observed component values; combined rule
     for k in range(outl):
         m = Fraction(drv.ask("std " + contribs_str([(c, r[2]) for (_, c), r in zip(sch, rules)], k)))
-        if not close(reported[k], m):
+        if not sclose([reported[k]], [m], [scale[k]]):
             ok = False
             ctx.corr_break("C05/std-value", case, {"component": k, "impl": float(reported[k]), "model": float(m)})
         if reported[k] == m:
@@ -717,12 +858,13 @@ def case_standard(ctx, drv, case):
                 wpart, vpart = out[2:].split(" V ")
                 mw = [Fraction(x) for x in wpart[1:-1].split(",")] if wpart != "[]" else []
                 mv = Fraction(vpart)
-                good = len(mw) == len(ws) and all(close(fr(w), x, 1e-12) for w, x in zip(ws, mw)) and close(pw[k], mv)
+                good = (len(mw) == len(ws0) and all(abs(fr(w) - x) <= Fraction(1, 10 ** 12) * abs(x) for w, x in zip(ws0, mw)) and
+                        sclose([pw[k]], [mv], [scale[k]]))
             except Exception:
                 good = False
             if not good:
                 ok = False
-                ctx.corr_break("C05/points-weights", case, {"component": k, "impl_n": len(ws), "model": out[:200]})
+                ctx.corr_break("C05/points-weights", case, {"component": k, "impl_n": len(ws0), "model": out[:200]})
     ctx.count("std_components", len(sch))
     ctx.count("std_grid_" + grid_label(gs))
     ctx.count("std_negative_combined_component_weights", sum(1 for r_ in rules for w in r_[1] if w < 0))
@@ -741,10 +883,13 @@ def da_run(case, max_points):
             r = super().integrate(f, levelvec, start, end)
             self.calls.append(tuple(int(x) for x in levelvec))
             return r
-    grid = RecTrap(np.array(a, dtype=float), np.array(b, dtype=float), boundary=gs["boundary"])
+    grid = RecTrap(np.array(a, dtype=float), np.array(b, dtype=float), boundary=flag(gs))
     grid.calls = []
     ref = np.array([float(x) for x in exact_integral(fspec, a, b)])
-    op = Integration(make_function(fspec), grid=grid, dim=dim, reference_solution=ref)
+    fobj = make_function(fspec)
+    if case.get("no_cache"):
+        fobj.deactivate_caching()
+    op = Integration(fobj, grid=grid, dim=dim, reference_solution=ref)
     da = DimAdaptiveCombi(np.array(a), np.array(b), op)
     with quiet(), time_limit(30):
         scheme, err, res, errors, num_points = da.perform_combi(1, 2, -1.0, max_number_of_points=max_points)
@@ -756,12 +901,29 @@ def case_dimadaptive(ctx, drv, case):
     outl = fspec["outl"]
     tags = {"strategy": "dim-adaptive", "grid": gs["name"], "resumed": False}
     ok = True
+    sib = None
     try:
+        if case.get("sibling_f"):
+            # SIBLING OBJECT with another integrand and equal level vectors works first (class-level / module-level / default-argument
+            # caches of component results would leak into the run below); it is checked itself, and again after the main runs
+            scase = dict(case, f=case["sibling_f"])
+            _, srep, ssch, _, _, _ = da_run(scase, case["max_points"])
+            sib = (scase, srep, ssch)
         da, rep_long, sch_long, calls_long, npts, it_long = da_run(case, case["max_points"])
         stops = {it_long: (rep_long, sch_long)}
         for n in sorted(set(npts)):
             _, rep, sch, _, _, it = da_run(case, n - 1)
             stops.setdefault(it, (rep, sch))
+        if sib is not None:
+            _, srep2, ssch2, _, _, _ = da_run(sib[0], case["max_points"])
+            svals = [local_component(gs, a, b, lv, a, b, sib[0]["f"])[2] for lv, _ in sib[2]]
+            sind = combine([c for _, c in sib[2]], svals, sib[0]["f"]["outl"])
+            sscale = combine_scale([c for _, c in sib[2]], svals, sib[0]["f"]["outl"])
+            if not sclose(sib[1], sind, sscale) or srep2 != sib[1] or ssch2 != sib[2]:
+                ok = False
+                ctx.violation("reported-vs-independent", dict(tags, sibling=True), case,
+                              {"sibling_reported_before": fl(sib[1]), "sibling_reported_after": fl(srep2), "sibling_independent": fl(sind)})
+            ctx.count("da_sibling_runs")
     except Timeout:
         ctx.count("da_timeout")
         return True
@@ -776,7 +938,7 @@ def case_dimadaptive(ctx, drv, case):
                 comp_val[lv] = local_component(gs, a, b, lv, a, b, fspec)[2]
     for it, (rep, sch) in sorted(stops.items()):
         indep = combine([c for _, c in sch], [comp_val[lv] for lv, _ in sch], outl)
-        if not vclose(rep, indep):
+        if not sclose(rep, indep, combine_scale([c for _, c in sch], [comp_val[lv] for lv, _ in sch], outl)):
             ok = False
             ctx.violation("reported-vs-independent", dict(tags, stop=it), dict(case, stop_iteration=it),
                           {"reported": fl(rep), "independent": fl(indep), "scheme": str(sch)[:300]})
@@ -867,6 +1029,16 @@ def rec_classes():
                     [(self.aid(a), None if a.value is None else vec(a.value, outl)) for a in rc.get_objects()],
                     int(rc.startNewObjects), [int(p) for p in rc.popArray])
 
+        def init_adaptive_combi(self, lmin, lmax, refinement_container, tol):
+            super().init_adaptive_combi(lmin, lmax, refinement_container, tol)
+            if refinement_container is not None:
+                self.oplog.append({"op": "reinit", "after": self.snapshot()})       # resume with a container: everything is new again
+            elif self.oplog:
+                snap = self.snapshot()                                              # a second run on the same object
+                if getattr(self, "split_single_dim", False):     # provisional twin-error values of the initial areas, see refine()
+                    snap = (snap[0], snap[1], [(i, None) for i, _ in snap[2]], snap[3], snap[4])
+                self.oplog.append({"op": "init", "after": snap})
+
         def evaluate_operation(self):
             self.operation.rec = []
             r = super().evaluate_operation()
@@ -921,32 +1093,53 @@ def rec_classes():
     return rec_grid, RecIntegration, RecES, RecDW
 
 
-def build_adaptive(case, reevaluate=False):
+def adaptive_objects(case):
+    """strategy object + error calculator for a case (all non-default options of the case forwarded through the public constructors)"""
     from sparseSpACE.ErrorCalculator import ErrorCalculatorExtendSplit, ErrorCalculatorSingleDimVolumeGuided
     rec_grid, RecIntegration, RecES, RecDW = rec_classes()
     dim, a, b, gs, fspec = case["dim"], case["a"], case["b"], case["grid"], case["f"]
     an, bn = np.array(a, dtype=float), np.array(b, dtype=float)
     f = make_function(fspec)
+    if case.get("no_cache"):
+        f.deactivate_caching()              # rarely used toggle, before the run
     grid = make_grid(gs, a, b, cls=rec_grid(grid_class(gs)))
     if case["strategy"] == "extend-split":
         op = RecIntegration(f, grid=grid, dim=dim)
         s = RecES(an, bn, operation=op, version=0, automatic_extend_split=bool(case.get("automatic")),
-                  split_single_dim=bool(case.get("split_single_dim")))
+                  split_single_dim=bool(case.get("split_single_dim")),
+                  number_of_refinements_before_extend=case.get("refinements_before_extend", 1))
         ec = ErrorCalculatorExtendSplit()
     else:
         ref = None
         if case.get("reference") and fspec["kind"] == "poly":
             ref = np.array([float(x) for x in exact_integral(fspec, a, b)])
         op = RecIntegration(f, grid=grid, dim=dim, reference_solution=ref)
-        s = RecDW(an, bn, operation=op, version=case["version"], rebalancing=case.get("rebalancing", True))   # default grid_surplusses
+        s = RecDW(an, bn, operation=op, version=case["version"], rebalancing=case.get("rebalancing", True),
+                  **case.get("dw_options", {}))   # default grid_surplusses
         ec = ErrorCalculatorSingleDimVolumeGuided()
     s.rec_init()
+    s.box_arrays = (an, bn)
     if case.get("recalc"):
         s.refinements_for_recalculate = case["recalc"]      # public attribute; the default 100 is out of reach of small runs
+    return s, ec
+
+
+def perform(s, ec, case, limit, reevaluate=False, container=None):
+    kw = {}
+    if case.get("evaluation_points"):
+        kw["evaluation_points"] = [tuple(p) for p in case["evaluation_points"]]
     with quiet(), time_limit(60):
-        r = s.performSpatiallyAdaptiv(case["lmin"], case["lmax"], ec, tol=-1.0, max_evaluations=case["stops"][0],
-                                      print_output=False, reevaluate_at_end=reevaluate,
-                                      recalculate_frequently=bool(case.get("recalc")))
+        r = s.performSpatiallyAdaptiv(case["lmin"], case["lmax"], ec, tol=-1.0, max_evaluations=limit,
+                                      print_output=False, reevaluate_at_end=reevaluate, refinement_container=container,
+                                      recalculate_frequently=bool(case.get("recalc") or case.get("recalc_default")), **kw)
+    return r
+
+
+def build_adaptive(case, reevaluate=False):
+    s, ec = adaptive_objects(case)
+    s.ec = ec
+    r = perform(s, ec, case, case["stops"][0], reevaluate)
+    s.last_return = r
     return s, np.array(r[3], dtype=float)
 
 
@@ -958,6 +1151,7 @@ def independent_adaptive(s, case):
     outl = fspec["outl"]
     sch = scheme_of(s)
     tot = [Fraction(0)] * outl
+    scale = [Fraction(0)] * outl
     n = 0
     if case["strategy"] == "extend-split":
         for area in s.refinement.get_objects():
@@ -970,6 +1164,7 @@ def independent_adaptive(s, case):
                     n += 1
                     for k in range(outl):
                         tot[k] += c * v[k]
+                        scale[k] += abs(c * v[k])
     else:
         for lv, c in sch:
             coords, levels, _ = s.get_point_coord_for_each_dim(list(lv))
@@ -977,6 +1172,8 @@ def independent_adaptive(s, case):
             n += 1
             for k in range(outl):
                 tot[k] += c * v[k]
+                scale[k] += abs(c * v[k])
+    independent_adaptive.scale = scale
     return tot, n
 
 
@@ -987,6 +1184,7 @@ def replay_on_model(ctx, drv, s, case, variant, exact):
     log = s.oplog
     ok = True
     for k in range(outl):
+        mag = [Fraction(0)]
         if case["strategy"] == "extend-split":
             first = log[0]
             init_ids = sorted({s.aid(c[0]) for c in first["calls"]} | {i for i, _ in first["after"][2]})
@@ -1002,14 +1200,19 @@ def replay_on_model(ctx, drv, s, case, variant, exact):
                         for (area, clv, cc, part, apply) in e["calls"]:
                             if clv == lv and apply:
                                 tab[s.aid(area)] = vec(part, outl)
+                                mag[0] = max(mag[0], abs(cc * tab[s.aid(area)][k]))    # rounding happens on the scale of the summands
                         comps.append((c, tab))
                     name = "es-eval" if e["op"] == "eval" else ("es-final" if variant == "as-coded" else "es-final-reset")
                     out = drv.ask(name + " " + comps_str(comps, k))
+                elif e["op"] == "init":
+                    out = drv.ask("es-init " + nats([i for i, _ in e["after"][2]]))
+                elif e["op"] == "reinit":
+                    out = drv.ask("es-reinit")
                 else:
                     out = drv.ask("es-refine %s %s" % (nats(e["pops"]), nats(e["adds"])))
                     if e["op"] == "refine+reinit" and out != "raise":
                         out = drv.ask("es-reinit")
-                good = es_state_close(e["after"], out, k, exact)
+                good = es_state_close(e["after"], out, k, exact, mag)
                 impl_s = es_state_str(*e["after"], k)
             else:
                 if e["op"] not in ("eval", "final"):
@@ -1021,7 +1224,9 @@ def replay_on_model(ctx, drv, s, case, variant, exact):
                 try:
                     t = out.split(" ")
                     tol = 1e-12 if exact else TOL
-                    good = out == impl_s or (close(e["after"][0][k], Fraction(t[1]), tol) and close(e["after"][1][k], Fraction(t[3]), tol))
+                    ref = sum(abs(cc * p[k]) for cc, p in contribs)
+                    good = out == impl_s or (abs(e["after"][0][k] - Fraction(t[1])) <= tol * ref and
+                                             abs(e["after"][1][k] - Fraction(t[3])) <= tol * ref)
                 except Exception:
                     good = False
             if not good:
@@ -1043,6 +1248,10 @@ def case_adaptive(ctx, drv, case, variant):
     base_tags = {"strategy": strategy, "grid": case["grid"]["name"], "recalculate_frequently": bool(case.get("recalc")),
                  "automatic_extend_split": bool(case.get("automatic")), "split_single_dim": bool(case.get("split_single_dim"))}
     ok = True
+    cur = {"scale": [Fraction(1)] * outl}
+
+    def vclose(u, v):          # relative to the size of the summands of the current independent recomputation
+        return sclose(u, v, cur["scale"])
 
     def fail(probe, tags, detail, stop):
         nonlocal ok
@@ -1071,6 +1280,7 @@ def case_adaptive(ctx, drv, case, variant):
         ctx.violation("exception", dict(base_tags, where="performSpatiallyAdaptiv", resumed=False), case,
                       {"trace": traceback.format_exc()[-1500:]})
         return False
+    first_stop_reported = None
     extra = [Fraction(0)] * outl      # what a resumed extend-split run is expected to have counted twice (see C14)
     for si, stop in enumerate(case["stops"]):
         resumed = si > 0
@@ -1080,6 +1290,8 @@ def case_adaptive(ctx, drv, case, variant):
                     if a.value is not None:
                         v = vec(a.value, outl)
                         extra = [x + y for x, y in zip(extra, v)]
+            if case.get("reset_cache_between"):
+                s.operation.f.reset_dictionary()      # rarely used toggle in the middle of a sequence
             try:
                 with quiet(), time_limit(60):
                     r = s.continue_adaptive_refinement(tol=-1.0, max_evaluations=stop)
@@ -1093,11 +1305,21 @@ def case_adaptive(ctx, drv, case, variant):
                 ok = False
                 break
         reported = vec(rep, outl)
+        if si == 0:
+            first_stop_reported = reported
         ctx.count("stops_" + strategy)
         ctx.count("stops_grid_" + grid_label(case["grid"]) + ("_auto" if case.get("automatic") else ""))
         # (a) independent recomputation
         indep, ncomp = independent_adaptive(s, case)
+        cur["scale"] = independent_adaptive.scale
         ctx.count("independent_component_evaluations", ncomp)
+        # every public route to the reported value; the caller's box arrays are left alone
+        routes = {"get_result": vec(s.operation.get_result(), outl), "calculated_solution": vec(s.calculated_solution, outl)}
+        an, bn = s.box_arrays
+        if any(v != reported for v in routes.values()) or not (np.array_equal(an, np.array(case["a"], dtype=float)) and
+                                                               np.array_equal(bn, np.array(case["b"], dtype=float))):
+            fail("query-modifies-state", {"resumed": resumed, "where": "routes"},
+                 {"reported": fl(reported), "routes": {k: fl(v) for k, v in routes.items()}, "a": fl(an), "b": fl(bn)}, stop)
         if not vclose(reported, indep):
             readd = [x + y for x, y in zip(extra, getattr(s, "re_added", [Fraction(0)] * outl))]
             explained = strategy == "extend-split" and vclose([x - y for x, y in zip(reported, indep)], readd)
@@ -1123,6 +1345,20 @@ def case_adaptive(ctx, drv, case, variant):
             ctx.count("adaptive_timeout")
         except Exception:
             fail("exception", {"where": "evaluate_final_combi", "resumed": resumed}, {"trace": traceback.format_exc()[-1500:]}, stop)
+        if case.get("final_on_original"):
+            try:
+                with quiet(), time_limit(60):
+                    f1 = vec(np.array(s.evaluate_final_combi()[0], dtype=float), outl)
+                    f2 = vec(np.array(s.evaluate_final_combi()[0], dtype=float), outl)
+                if not (vclose(f1, indep) and vclose(f2, indep) and vclose(vec(s.operation.get_result(), outl), indep)):
+                    fail("reported-vs-final-combi", {"resumed": resumed, "on_original_twice": True,
+                                                     "adds_recomputation_to_accumulated": bool(vclose([x - y for x, y in zip(f1, reported)], indep))},
+                         {"reported": fl(reported), "first": fl(f1), "second": fl(f2), "independent": fl(indep)}, stop)
+                ctx.count("final_on_original")
+            except Timeout:
+                ctx.count("adaptive_timeout")
+            except Exception:
+                fail("exception", {"where": "evaluate_final_combi(original)", "resumed": resumed}, {"trace": traceback.format_exc()[-1500:]}, stop)
         # (d) public points and weights (dimension-wise strategy, nodal grid)
         if strategy == "dimension-wise":
             try:
@@ -1131,16 +1367,31 @@ def case_adaptive(ctx, drv, case, variant):
                 pw = rule_sum([tuple(float(c) for c in p) for p in pts], [float(w) for w in ws], fspec)
                 if not vclose(pw, reported):
                     fail("points-weights", {"resumed": resumed}, {"reported": fl(reported), "sum_w_f": fl(pw), "n": len(ws)}, stop)
+                pts0, ws0 = np.array(pts, dtype=float), np.array(ws, dtype=float)
+                for arr in (pts, ws):
+                    if isinstance(arr, np.ndarray) and arr.size:
+                        arr[...] = 0
+                with quiet():
+                    pts_b, ws_b = s.get_points_and_weights()
+                if not (np.array_equal(np.asarray(pts_b, dtype=float), pts0) and np.array_equal(np.asarray(ws_b, dtype=float), ws0)):
+                    fail("points-weights", {"resumed": resumed, "repeated_query": True}, {"n_first": len(ws0), "n_second": len(ws_b)}, stop)
+                if vec(s.operation.get_result(), outl) != reported:
+                    fail("query-modifies-state", {"resumed": resumed, "where": "get_points_and_weights"},
+                         {"reported": fl(reported), "get_result_after_query": fl(vec(s.operation.get_result(), outl))}, stop)
             except Exception:
                 fail("exception", {"where": "get_points_and_weights", "resumed": resumed}, {"trace": traceback.format_exc()[-1500:]}, stop)
         # (c) + non-resumed stop: fresh runs to the same limit, without and with re-evaluation at the end
         fcase = dict(case, stops=[stop])
         try:
-            sf, repf = build_adaptive(fcase, reevaluate=False)
+            if resumed:
+                sf, repf = build_adaptive(fcase, reevaluate=False)
+            else:
+                sf, repf = s, rep            # the fresh run to the first stop IS the chain run up to its first stop
             sg, repg = build_adaptive(fcase, reevaluate=True)
             repf, repg = vec(repf, outl), vec(repg, outl)
-            if resumed or case.get("recalc"):
+            if resumed:
                 indf, _ = independent_adaptive(sf, fcase)
+                cur["scale"] = independent_adaptive.scale
                 if not vclose(repf, indf):
                     readd = getattr(sf, "re_added", [Fraction(0)] * outl)
                     explained = strategy == "extend-split" and vclose([x - y for x, y in zip(repf, indf)], readd)
@@ -1158,10 +1409,44 @@ def case_adaptive(ctx, drv, case, variant):
                      {"reevaluate_False": fl(repf), "reevaluate_True": fl(repg), "independent": fl(indf)}, stop)
             if not replay_on_model(ctx, drv, sg, fcase, variant, exact):
                 ok = False
+            if si == 0 and case.get("sibling_f"):
+                scase = dict(case, f=case["sibling_f"], stops=[case["stops"][min(1, len(case["stops"]) - 1)]])
+                scase.pop("sibling_f")
+                if case.get("sibling_box"):
+                    scase["a"], scase["b"] = case["sibling_box"]
+                    scase.pop("evaluation_points", None)       # they belong to the main run's box
+                ss, srep = build_adaptive(scase)
+                sind, _ = independent_adaptive(ss, scase)
+                if not sclose(vec(srep, scase["f"]["outl"]), sind, independent_adaptive.scale):
+                    fail("reported-vs-independent", {"resumed": False, "sibling": True, "excess_is_re_added_new_areas": False},
+                         {"sibling_reported": fl(vec(srep, scase["f"]["outl"])), "sibling_independent": fl(sind)}, stop)
+                ctx.count("adaptive_sibling_runs")
         except Timeout:
             ctx.count("adaptive_timeout")
         except Exception:
             fail("exception", {"where": "performSpatiallyAdaptiv(reevaluate)", "resumed": False}, {"trace": traceback.format_exc()[-1500:]}, stop)
+    # ---- multi-call API sequences on the SAME object: resume with its own refinement container, then a second run from scratch
+    for step in ("container_resume", "rerun"):
+        if not case.get(step) or not ok:
+            continue
+        try:
+            if step == "container_resume":
+                r = perform(s, s.ec, case, case["container_limit"], container=s.refinement)
+            else:
+                r = perform(s, s.ec, case, case["stops"][0])
+            rep2 = vec(np.array(r[3], dtype=float), outl)
+            ind2, _ = independent_adaptive(s, case)
+            cur["scale"] = independent_adaptive.scale
+            if not vclose(rep2, ind2):
+                fail("reported-vs-independent", {"resumed": True, "sequence": step, "excess_is_re_added_new_areas": False},
+                     {"reported": fl(rep2), "independent": fl(ind2)}, step)
+            else:
+                bookkeeping(s, ind2, True, step)
+            ctx.count("sequence_" + step)
+        except Timeout:
+            ctx.count("adaptive_timeout")
+        except Exception:
+            fail("exception", {"where": step, "resumed": True}, {"trace": traceback.format_exc()[-1500:]}, step)
     # ---- model: the whole chain (all evaluations, refinements, the final re-evaluation on the copy)
     if not replay_on_model(ctx, drv, s, case, variant, exact):
         ok = False
@@ -1199,28 +1484,42 @@ def gen_standard(ctx, thorough, index=0):
     gs = dict(STD_CONFIGS[index % len(STD_CONFIGS)])
     if gs["name"] == "Leja":
         dim, lmin = 2, 1
-        lmax = r.choice([3, 3, 4])          # negative weights need a 1-D level >= 3
+        lmax = r.choice([3, 3, 4]) if thorough else 3          # negative weights need a 1-D level >= 3
     else:
         dim = r.choice([2, 2, 3])
         lmin = r.choice([1, 1, 2])
         lmax = lmin + r.randint(0, 2 if dim == 2 else 1)
-    a, b = gen_box(r, dim)
-    return {"kind": "standard", "dim": dim, "lmin": lmin, "lmax": lmax, "grid": gs, "a": a, "b": b,
+    if thorough and gs["name"] == "Trapezoidal" and r.random() < 0.15:
+        dim, lmin, lmax = 4, 1, 2                                                   # g: dimension >= 3, non-cubic boxes
+    a, b = gen_box(r, dim, extreme=r.random() < 0.15)                               # e: scale extremes
+    if gs["name"] in ("Trapezoidal", "ClenshawCurtis"):
+        gs["flagrep"] = r.choice(["bool", "bool", "np", "int"])
+    case = {"kind": "standard", "dim": dim, "lmin": lmin, "lmax": lmax, "grid": gs, "a": a, "b": b,
             "f": gen_fspec(r, dim, nondyadic=r.random() < 0.2)}
+    if r.random() < 0.15:
+        case["no_cache"] = True                                                     # l: rarely used toggle before the run
+    return case
 
 
 def gen_dimadaptive(ctx, thorough):
     r = ctx.rng
     dim = r.choice([2, 2, 3])
-    a, b = gen_box(r, dim)
-    f = gen_fspec(r, dim, allow_table=False, nondyadic=r.random() < 0.2)
-    # the stopping rule divides by the reference integral
-    tries = 0
-    while any(v == 0 for v in exact_integral(f, a, b)) and tries < 20:
-        f = gen_fspec(r, dim, allow_table=False)
-        tries += 1
-    return {"kind": "dim-adaptive", "dim": dim, "grid": {"name": "Trapezoidal", "boundary": True}, "a": a, "b": b, "f": f,
+    a, b = gen_box(r, dim, extreme=r.random() < 0.1)
+
+    def nonzero_f():
+        f = gen_fspec(r, dim, allow_table=False, nondyadic=r.random() < 0.2)
+        tries = 0                   # the stopping rule divides by the reference integral
+        while any(v == 0 for v in exact_integral(f, a, b)) and tries < 20:
+            f = gen_fspec(r, dim, allow_table=False)
+            tries += 1
+        return f
+    case = {"kind": "dim-adaptive", "dim": dim, "grid": {"name": "Trapezoidal", "boundary": True, "flagrep": r.choice(["bool", "np", "int"])},
+            "a": a, "b": b, "f": nonzero_f(),
             "max_points": r.choice([30, 60, 100, 150]) if dim == 2 else r.choice([60, 120, 200])}
+    if r.random() < 0.5:
+        case["sibling_f"] = nonzero_f()       # b: a sibling object with another integrand and the same level vectors works before and after
+        case["sibling_f"]["outl"] = case["sibling_f"]["outl"]
+    return case
 
 
 ES_CONFIGS = [   # (grid, automatic_extend_split, split_single_dim); cycled, so that every family occurs early in every run
@@ -1273,17 +1572,63 @@ def gen_adaptive(ctx, thorough, strategy, index=0):
             "f": gen_fspec(r, dim, allow_table=allow_table, nondyadic=r.random() < 0.15), "stops": stops, "grid": dict(gs)}
     if r.random() < 0.15:
         case["recalc"] = r.choice([1, 2, 3, 5])
+    # ---- hardening options (catalogue of change patterns a-l); probabilities chosen so that the run time stays put
+    if gs["name"] in ("Trapezoidal", "GlobalTrapezoidal", "ClenshawCurtis"):
+        case["grid"]["flagrep"] = r.choice(["bool", "bool", "np", "int"])           # d: flag representations
+    if r.random() < 0.15 and dim == 2:                                             # e: scale extremes
+        case["a"], case["b"] = a, b = gen_box(r, dim, extreme=True)
+    if r.random() < 0.2:
+        case["final_on_original"] = True                                            # a: query twice on the object itself, then go on
+    if r.random() < 0.15:
+        case["reset_cache_between"] = True                                          # l: toggles in the middle / before
+    if r.random() < 0.1:
+        case["no_cache"] = True
+    if r.random() < 0.2:
+        case["sibling_f"] = gen_fspec(r, dim, allow_table=False)                    # b: sibling object, other integrand, same levels
+        if r.random() < 0.5:
+            case["sibling_box"] = list(gen_box(r, dim))
+    if r.random() < 0.2:
+        case["container_resume"] = True                                             # h: multi-call sequences on one object
+        case["container_limit"] = stops[-1] + base
+    if r.random() < 0.2:
+        case["rerun"] = True
+    # (extend-split + evaluation_points: interpolate_points raises KeyError for some refinements on the clean tree -- interpolation is
+    #  C02's business; the option is exercised on the dimension-wise strategy only)
+    if r.random() < 0.15 and gs.get("boundary") is True and gs["name"] == "GlobalTrapezoidal":
+        case["evaluation_points"] = [[a[d] + (b[d] - a[d]) * t for d in range(dim)] for t in (0.25, 0.5, 0.8125)]   # i
     if strategy == "extend-split":
         case["automatic"] = automatic
+        case["refinements_before_extend"] = r.choice([1, 1, 2, 3])                  # d: option forwarded to every child area
+        if gs["name"] == "Trapezoidal" and not automatic and not ssd and r.random() < 0.3:
+            case["grid"]["boundary"] = False
+            case.pop("evaluation_points", None)
         if ssd:
             # split_single_dim: twin errors equal in every dimension (integrand symmetric in the box's relative coordinates, often on
             # a non-unit box) make a refinement split in several dimensions at once -> calculate_new_twin_errors after initialize()
             case["split_single_dim"] = True
             case["f"] = gen_symmetric_fspec(r, dim, a, b)
+        if thorough and index % 80 == 6:
+            # f: the REAL size threshold of recalculate_frequently (refinements / 100 > counter) is crossed by a long cheap run
+            case.update({"recalc_default": True, "stops": [1, 20000], "lmax": 2, "dim": 2, "a": [0.0, 0.0], "b": [1.0, 2.0],
+                         "grid": {"name": "Trapezoidal", "boundary": True}, "automatic": False, "split_single_dim": False,
+                         "f": gen_fspec(r, 2, allow_table=False)})
+            for k in ("recalc", "sibling_f", "sibling_box", "container_resume", "evaluation_points", "final_on_original", "rerun"):
+                case.pop(k, None)
     else:
         case["version"] = r.choice([2, 3, 3, 6, 6])
         case["rebalancing"] = r.random() < 0.7
         case["reference"] = r.random() < 0.6
+        x = r.random()                                                              # d: options that shape the refinement history
+        if x < 0.15:
+            case["dw_options"] = {"margin": 0.5}
+        elif x < 0.3:
+            case["dw_options"] = {"use_volume_weighting": True}
+        elif x < 0.4:
+            case["dw_options"] = {"force_balanced_refinement_tree": True}
+        if "dw_options" in case:
+            case.pop("evaluation_points", None)       # interpolation of these variants is C02's business
+        # (chebyshev_points=True raises `start < mid < end` in RefinementObjectSingleDimension.refine on the clean tree for boxes other
+        #  than [0,1]^d -- outside this property; left out)
     return case
 
 
@@ -1317,8 +1662,16 @@ def run(ctx):
                 "polynomial (dyadic and non-dyadic coefficients) or table-backed integrands with 1-3 outputs, 2-3 stops per run "
                 "(first fresh, later via continue_adaptive_refinement) plus fresh runs with/without reevaluate_at_end; 15% of the adaptive "
                 "cases with recalculate_frequently (refinements_for_recalculate 1-5); "
+                "hardening options: boundary flags as bool/numpy.bool_/0-1, Trapezoidal without boundary, number_of_refinements_before_extend 1-3, "
+                "dimension-wise margin / volume weighting / forced balanced tree, boxes far from the origin (2^10..2^13) or tiny (2^-20..2^-12), "
+                "repeated queries and caller-overwritten result arrays, evaluate_final_combi twice on the running object, sibling objects with another "
+                "integrand (and box) between the stops, resume with the object's own refinement_container, second run on the same object, "
+                "evaluation_points, deactivate_caching / reset_dictionary toggles, one object for several standard requests; all comparisons relative "
+                "to the size of the summands (no absolute floor); "
                 "a case is distinct by its full parameter dict; non-trivial if it has at least one refinement / two components")
     drv = ctx.driver("drv_c05")
+    import extendsplit_gen
+    extendsplit_gen.run(ctx, None, None)      # translator tie of the extend-split component selection (see extendsplit_gen.py); this harness is the search
     for l in MALFORMED:
         out = drv.ask(l)
         ctx.count("malformed_lines")
@@ -1353,6 +1706,7 @@ def run(ctx):
                     case = gen_dimadaptive(ctx, thorough)
                 else:
                     case = gen_adaptive(ctx, thorough, fam, counters[fam] - 1)
+                nviol = len(ctx.violations)
                 try:
                     ok = run_case(ctx, drv, case, variant)
                 except Exception:
@@ -1363,8 +1717,8 @@ def run(ctx):
                 if fam == "micro":
                     nontrivial = sum(1 for o in case["ops"] if o["op"] in ("refine", "rawrefine")) >= 1
                 ctx.case(case, nontrivial=nontrivial, sample=case if counters[fam] == 1 and fam != "micro" else None)
-                if not ok:
-                    bad[fam] += 1
+                if len(ctx.violations) > nviol:
+                    bad[fam] += 1          # only failing INPUTS end a family early; a model disagreement keeps the search going
 
 
 def replay(ctx, rp):
